@@ -69,7 +69,7 @@ def configs_for(entry, tier, rng, small_values=(1, 2, 3, 4, 5), max_alt=None):
         return cfgs
 
     def relations(c):
-        rel = {("val", i, c[i] == 1) for i in range(k)}        # period 1 is a degenerate case worth having once
+        rel = set()
         for i in range(k):
             for j in range(i + 1, k):
                 rel.add((i, j, (c[i] > c[j]) - (c[i] < c[j])))
